@@ -117,11 +117,14 @@ def _first_idx(ops):
     return None
 
 
-def _operands(draw, n, allow_scalar=True, allow_frame=True, common=None, cols_fixed=None, pre=()):
-    """n operands; `common`: a column every frame must have; cols_fixed: the column set of every frame (order free)"""
+def _operands(draw, n, allow_scalar=True, allow_frame=True, common=None, cols_fixed=None, pre=(), profile='mixed'):
+    """n operands; `common`: columns every frame must have; cols_fixed: the column set of every frame (order free)"""
     ops = []
     for _ in range(n):
-        kinds = ['s', 's'] + (['f', 'f'] if allow_frame else []) + (['c'] if allow_scalar else [])
+        if profile == 'frames':
+            kinds = ['f', 'f', 'f', 'f', 's', 'c']
+        else:
+            kinds = ['s', 's'] + (['f', 'f'] if allow_frame else []) + (['c'] if allow_scalar else [])
         k = draw(st.sampled_from(kinds))
         first = _first_idx(list(pre) + ops)
         if k == 'c':
@@ -133,6 +136,10 @@ def _operands(draw, n, allow_scalar=True, allow_frame=True, common=None, cols_fi
                 cols = list(draw(st.permutations(cols_fixed)))
             else:
                 cols = _cols(draw, common)
+                prev = [o for o in list(pre) + ops if o['k'] == 'f']
+                rest = [c for c in COLPOOL if prev and c not in prev[0]['cols']]
+                if not common and len(rest) >= 2 and draw(st.integers(0, 5)) == 0:
+                    cols = rest          # shares no column with the first frame
             ops.append(_ts(draw, 'f', first, cols))
     return ops
 
@@ -152,29 +159,30 @@ def _arith_case(draw):
     op = draw(st.sampled_from(['add_', 'sub_', 'mul_', 'div_']))
     join = draw(st.sampled_from(['ij', 'oj']))
     columns = draw(st.sampled_from(['ij', 'oj']))
-    form = draw(st.sampled_from(['bin', 'bin', 'list', 'split']))
+    form = draw(st.sampled_from(['bin', 'bin', 'list', 'list', 'split']))
     if form == 'list' and op in ('sub_', 'div_'):
         form = 'split'
+    profile = draw(st.sampled_from(['mixed', 'mixed', 'frames']))
     if form == 'bin':
-        ops = _ensure_ts(draw, _operands(draw, 2))
+        ops = _ensure_ts(draw, _operands(draw, 2, profile=profile))
         return dict(op=op, join=join, columns=columns, form=form, lhs=[ops[0]], rhs=[ops[1]], lhs_list=False, rhs_list=False)
     n = draw(st.integers(2, 4))
     # under columns='ij' the frames of one folded list share two columns, so that no intermediate result has < 2 columns
     if form == 'list':
         common = _common(draw) if columns == 'ij' and n > 2 else None
-        ops = _ensure_ts(draw, _operands(draw, n, common=common), cols=None if common is None else _cols(draw, common))
+        ops = _ensure_ts(draw, _operands(draw, n, common=common, profile=profile), cols=None if common is None else _cols(draw, common))
         return dict(op=op, join=join, columns=columns, form=form, lhs=ops, rhs=None, lhs_list=True, rhs_list=False)
     nl = draw(st.integers(1, n - 1))
     if op in ('add_', 'mul_'):
         # one fold over lhs + rhs
         common = _common(draw) if columns == 'ij' and n > 2 else None
-        ops = _ensure_ts(draw, _operands(draw, n, common=common), cols=None if common is None else _cols(draw, common))
+        ops = _ensure_ts(draw, _operands(draw, n, common=common, profile=profile), cols=None if common is None else _cols(draw, common))
         lhs, rhs = ops[:nl], ops[nl:]
     else:
         cl = _common(draw) if columns == 'ij' and nl > 1 else None
         cr = _common(draw) if columns == 'ij' and n - nl > 1 else None
-        lhs = _operands(draw, nl, common=cl)
-        rhs = _operands(draw, n - nl, common=cr, pre=lhs)
+        lhs = _operands(draw, nl, common=cl, profile=profile)
+        rhs = _operands(draw, n - nl, common=cr, pre=lhs, profile=profile)
         both = _ensure_ts(draw, lhs + rhs, allow_frame=False)
         lhs, rhs = both[:nl], both[nl:]
     lhs_list = True if len(lhs) > 1 else draw(st.booleans())
@@ -188,7 +196,7 @@ def _cmp_case(draw):
     join = draw(st.sampled_from(['ij', 'oj']))
     columns = draw(st.sampled_from(['ij', 'oj']))
     if op != 'pow_':
-        ops = _ensure_ts(draw, _operands(draw, 2))
+        ops = _ensure_ts(draw, _operands(draw, 2, profile=draw(st.sampled_from(['mixed', 'mixed', 'frames']))))
         return dict(op=op, join=join, columns=columns, a=ops[0], b=ops[1])
     a = _operands(draw, 1)[0]
     kb = draw(st.sampled_from(['c', 's', 's', 'f']))
@@ -717,22 +725,22 @@ KNOWN = {'narrow_intermediate': _narrow_intermediate}
 
 
 SUBS = [
-    Sub('arith', lambda tier: _arith_case(), run_arith, quick=4000, thorough=12000,
+    Sub('arith', lambda tier: _arith_case(), run_arith, quick=4000, thorough=20000,
         rule='add_/sub_/mul_/div_ on 2-4 operands (float/int Series, 2-3 column frames over {a,b,c,d}, scalars incl. 0 and NaN) on a 12-day axis; '
              'index policies ij/oj x column policies ij/oj; forms op(a,b), op([..]), op([..],[..]); oracle: per-timestamp dictionary model folded left to right, '
              'neutral element for one-sided columns, zero divisor -> NaN and no inf, op(a,b)==op(b,a) for add_/mul_. '
              'non-trivial = partially overlapping indices with a NaN or 0 inside the overlap, or frames with differing column sets',
-        floor=0.2, class_floors={'neutral_element_used': 0.05, 'zero_divisor_cell': 0.05, 'commutativity_checked': 0.1, 'partial_overlap': 0.2,
+        floor=0.2, class_floors={'neutral_element_used': 0.04, 'zero_divisor_cell': 0.05, 'commutativity_checked': 0.1, 'partial_overlap': 0.2,
                                  'series_with_frame': 0.1, 'scalar': 0.15, 'empty_operand': 0.05, 'disjoint_indices': 0.05}),
-    Sub('cmp_pow', lambda tier: _cmp_case(), run_cmp_pow, quick=2000, thorough=6000,
+    Sub('cmp_pow', lambda tier: _cmp_case(), run_cmp_pow, quick=2000, thorough=10000,
         rule='pow_ (exponents 0..3, 0.5, NaN) and gt_/ge_/lt_/le_ on two operands, same operand universe and policies; oracle: the same alignment model with '
              'math.pow / Python comparisons; cells of one-sided columns under columns=oj are not judged. non-trivial as in arith',
         floor=0.2, class_floors={'both_outcomes': 0.15, 'partial_overlap': 0.2, 'op=pow_': 0.2}),
-    Sub('minmax', lambda tier: _minmax_case(), run_minmax, quick=2000, thorough=6000,
+    Sub('minmax', lambda tier: _minmax_case(), run_minmax, quick=2000, thorough=10000,
         rule='min_/max_ on 2-4 operands (Series, scalars, frames with one common column set), forms (a,b), ([..]), ([..],[..]); oracle: NaN-propagating '
              'min/max on the aligned cells. non-trivial = partially overlapping indices with a NaN or 0 inside the overlap',
         floor=0.2, class_floors={'partial_overlap': 0.25, 'series_with_frame': 0.1}),
-    Sub('agg', lambda tier: _agg_case(), run_agg, quick=2000, thorough=6000,
+    Sub('agg', lambda tier: _agg_case(), run_agg, quick=2000, thorough=10000,
         rule='df_sum/df_mean/df_count on 2-4 Series or 2-4 multi-column frames (column sets may differ), default policies; oracle: union index, '
              'sum/mean over the non-NaN operands, count of them, NaN (count 0) where none. non-trivial as in arith',
         floor=0.3, class_floors={'cell_without_data': 0.3, 'cell_with_data': 0.5, 'differing_columns': 0.1}),
